@@ -207,9 +207,13 @@ impl<'a> Judge<'a> {
                     .get(o.actor)
                     .and_then(|a| a.ops.get(o.op))
                     .map(|op| op_kind(op))
-                    .unwrap_or_else(|| "release".into());
+                    .unwrap_or_else(|| match o.label.strip_prefix("at-exit:") {
+                        Some(rest) => format!("{} called from a thread-local destructor", rest.split(':').nth(1).unwrap_or(rest)),
+                        None => "release of leftover guards".into(),
+                    });
                 let first = msg.lines().next().unwrap_or("").to_string();
-                out.push(f("no-panic", format!("panic in {opname}: {}", strip_numbers(&first)), format!("actor {} op {}: {msg}", o.actor, o.op)));
+                let first = first.strip_prefix("in a thread-local destructor: ").unwrap_or(&first).to_string();
+                out.push(f("no-panic", format!("panic in {opname}: {}", strip_numbers(&first)), format!("actor {} op {}: {msg}", o.actor, o.op as i64)));
             }
         }
     }
@@ -443,10 +447,10 @@ impl<'a> Judge<'a> {
             let root_batch = root_erec.and_then(|ei| self.by_erec[ei].first().map(|&mi| self.matched[mi].batch));
             match root_batch {
                 None => {
-                    if !root_dropped {
+                    if !root_dropped && !self.m.parked_at_exit {
                         out.push(f("hold", "root record never delivered", format!("trace of {root}")));
                     }
-                    if !batches.is_empty() {
+                    if !batches.is_empty() && !root_dropped {
                         out.push(f("hold", "records of a trace delivered without its root", format!("trace of {root}")));
                     }
                 }
@@ -606,7 +610,7 @@ impl<'a> Judge<'a> {
     }
 
     fn state(&self, out: &mut Vec<Finding>) {
-        if self.ex.outcome != Outcome::Completed || self.any_dropped() {
+        if self.ex.outcome != Outcome::Completed || self.m.parked_at_exit {
             return;
         }
         let b = &self.ex.stats_before;
